@@ -240,6 +240,7 @@ impl Dev {
             Dev::Wild { .. } => "X-or-star",
             Dev::NoTagHyphen { .. } => "tag-without-hyphen",
             Dev::Garbage { .. } => "garbage-token",
+            Dev::Sep { s: "", .. } => "no-blank-between",
             Dev::Sep { .. } => "extra-blank-between",
             Dev::TabLead => "leading-blank",
             Dev::TabTrail => "trailing-blank",
@@ -271,8 +272,59 @@ impl Dev {
         }
     }
     pub fn conflicts(&self, o: &Dev) -> bool {
+        // a missing blank between two comparators (Sep with an empty separator) changes the value of
+        // the text: it is only combined with deviations outside its alternative
+        for (a, b) in [(self, o), (o, self)] {
+            if let Dev::Sep { alt, s: "", .. } = a {
+                if b.alt_of() == Some(*alt) {
+                    return true;
+                }
+            }
+        }
         self.site() == o.site()
     }
+    fn alt_of(&self) -> Option<usize> {
+        match self {
+            Dev::LeadZero { alt, .. } | Dev::VPrefix { alt, .. } | Dev::OpGap { alt, .. } | Dev::Wild { alt, .. } | Dev::NoTagHyphen { alt, .. } | Dev::Garbage { alt, .. } | Dev::Sep { alt, .. } | Dev::VSpace { alt, .. } | Dev::HyphenSep { alt } => Some(*alt),
+            _ => None,
+        }
+    }
+}
+
+/// Deviations that change the value: a missing blank between comparator k-1 and comparator k
+/// (`>=1.2.3<2.0.0`) makes one token that is no comparator; npm (and the crate) drop it like any
+/// other unparseable token. Returns the program the text then stands for.
+pub fn effective(prog: &Prog, devs: &[Dev]) -> Prog {
+    let mut out = prog.clone();
+    for d in devs {
+        if let Dev::Sep { alt, pos, s: "" } = d {
+            if let Alt::Set(ss) = &mut out[*alt] {
+                if *pos >= 1 && *pos < ss.len() {
+                    ss[*pos - 1] = Simple::Garbage("foo");
+                    ss[*pos] = Simple::Garbage("foo");
+                }
+            }
+        }
+    }
+    out
+}
+
+/// the sites where a blank between two comparators can be left out so that the merged token can
+/// never be a comparator: the second one starts with an operator character
+pub fn nosep_sites(prog: &Prog) -> Vec<Dev> {
+    let mut out = vec![];
+    for (ai, alt) in prog.iter().enumerate() {
+        if let Alt::Set(ss) = alt {
+            for k in 1..ss.len() {
+                if let (Simple::P(_, _), Simple::P(op, _)) = (&ss[k - 1], &ss[k]) {
+                    if *op != Op::Bare {
+                        out.push(Dev::Sep { alt: ai, pos: k, s: "" });
+                    }
+                }
+            }
+        }
+    }
+    out
 }
 
 pub const GARBAGE: [&str; 8] = ["foo", "~1.y", "1.2.3.4", "1.2beta4", "x|y", "|", "-", ">="];
